@@ -459,6 +459,10 @@ class Builder:
             x = rng.random()
             step = rng.choice(STEPS)
             cands = [F(0), M, M + step, 2 * M, 2 * M - step, M / 2, 3 * M + F(1, 2), M - step, room, grid(rng, 0, room)]
+            if F(M).denominator > 2**20:
+                # a max_volume that is not a short binary fraction (950.3): its neighbours in single and half precision
+                import numpy as _np
+                cands += [F(float(_np.float32(float(M)))), F(float(_np.float16(float(M)))), F(float(_np.float32(float(M)))), F(float(_np.float16(float(M))))]
             if x < 0.1:
                 v = F(0)
             elif x < 0.55:
@@ -479,6 +483,21 @@ class Builder:
             s_room[sidx] = sr - v
             if not (si == di and sidx == didx):
                 d_room[didx] = dr - v
+        if fail is None and n >= 2 and rng.random() < self.profile.get("p_near_equal", 0.12):
+            # two volumes of one request that differ by less than the two decimals a record carries (1900 and 1900.004;
+            # 950 and 950.002 around a multiple of max_volume): each pair still moves ITS volume in ITS number of steps
+            i, j = rng.sample(range(n), 2)
+            delta = rng.choice([F(1, 512), F(1, 256), F(1, 1024), F(1, 2**20)])   # dyadic: exact in binary floating point
+            base = vols[i]
+            if rng.random() < 0.5 and self.cfg["auto_split"]:
+                base = rng.choice([M, 2 * M])
+            sidx_i, sidx_j = S.indices[srcs[i]], S.indices[srcs[j]]
+            didx_i, didx_j = D.indices[dsts[i]], D.indices[dsts[j]]
+            roomy = lambda k, sidx, didx: min(s_room[sidx] + vols[k], (d_room.get(didx, F(0)) + vols[k]) if not (si == di and sidx == didx) else s_room[sidx] + vols[k])
+            if base + delta <= roomy(j, sidx_j, didx_j) and base <= roomy(i, sidx_i, didx_i) and sidx_i != sidx_j and didx_i != didx_j and base > 0 \
+                    and not (si == di and (sidx_i == didx_j or sidx_j == didx_i)):
+                vols[i] = base
+                vols[j] = base + delta if rng.random() < 0.7 else max(F(0), base - delta)
         op = {"op": "transfer", "src": si, "dst": di, "label": self.label(),
               "wash": rng.choice([1, 1, 2, 3, 4, "flush", "reuse"]),
               "partition_by": rng.choice(["auto", "auto", "source", "destination"]), "kw": self.kw()}
@@ -523,7 +542,9 @@ class Builder:
             op["vols"] = ("V", vols[:-1] if n > 2 else vols + [F(1)])
             op["src_wells"] = ("V", srcs)
         if fail == "negative":
-            vv = list(vols); vv[rng.randrange(n)] = -rng.choice([F(1), F(5), F(1, 2)])
+            # also negative volumes far below any rounding threshold (float noise such as 0.3 - 0.2 - 0.1, the
+            # smallest subnormal): negative is negative
+            vv = list(vols); vv[rng.randrange(n)] = -rng.choice([F(1), F(5), F(1, 2), F(1, 2**40), F(1, 2**55), F(1, 10**12), F(5e-324), F(1, 2**70)])
             op["vols"] = ("V", vv)
         # 2-D form for square-ish requests
         if fail is None and n in (4, 6, 8, 12) and rng.random() < 0.25 and op["src_wells"][0] == "V" and op["dst_wells"][0] == "V" and op["vols"][0] == "V":
@@ -543,6 +564,10 @@ class Builder:
             for key in ("src_wells", "dst_wells", "vols"):
                 if rng.random() < 0.6:
                     op[key] = reshape(op[key])
+        if rng.random() < self.profile.get("p_narrow_vols", 0.0):
+            op["vols_dtype"] = rng.choice(["float16", "float32", "float32"])
+            if op["vols"][0] == "S":
+                op["vols"] = ("V", [op["vols"][1]] * n)
         if fail == "length" and n >= 4 and rng.random() < 0.5:
             # lengths that differ although the shapes are broadcastable: an r x c block of wells with r (or c) volumes
             facts = [(r, n // r) for r in range(2, n) if n % r == 0]
